@@ -82,6 +82,14 @@ func genC06(t *rapid.T) C06Case {
 			c.Mutations++
 		}
 	}
+	if rapid.IntRange(0, 3).Draw(t, "sameFileNames") == 0 {
+		// the file name is documented as "only used for error messages": several files may share one
+		name := rapid.SampledFrom([]string{"", "same.soy"}).Draw(t, "fileName")
+		for i := range c.Prog.Prog.Files {
+			c.Prog.Prog.Files[i].Name = name
+		}
+		c.Mutations++
+	}
 	c.Obligatory = rapid.SampledFrom([][]string{nil, nil, nil, {"noAutoescape"}, {"nope"}, {"truncate"}, {"bidiSpanWrap"}, {"escapeHtml", "id"}}).Draw(t, "obligatory")
 	return c
 }
